@@ -6,6 +6,61 @@ V = os.path.dirname(os.path.dirname(os.path.abspath(__file__)))
 
 CLAIMS = {
  # id: (category, text, note, technique, design_ref)
+ "C02": ("proof",
+         "Kani/CBMC proofs, complete over all 2^64 words, addresses and saved bytes, of the real INT3 patch primitive "
+         "Breakpoint::enable / Breakpoint::disable: exactly the breakpoint address is peeked and poked, only the low byte changes, "
+         "the original byte is saved, disable after enable restores the word (no patched byte remains), the saved byte survives "
+         "re-arming (step-over), and a failed ptrace call leaves memory and flags unchanged. Scope: the patch primitive only; that "
+         "temporary breakpoints are removed, that all breakpoints are disabled on exit/detach, and that the debuggee's output is "
+         "unchanged are whole-history statements outside this family's reach.",
+         "nix::sys::ptrace::read/write replaced by a one-word memory model (stub); ptrace/kernel semantics assumed.",
+         "Kani proofs on the real crate with ptrace stubs, full-domain symbolic inputs", "2/C02"),
+ "C04": ("proof",
+         "Verus proofs, for every sorted line table of any length, of the real line-table lookups extracted mechanically each run: "
+         "find_place_by_idx, find_place_by_pc (a row of the greatest address <= pc), find_exact_place_by_pc (lowest index with that "
+         "address, Some iff present), find_eb, find_lines_for_range, PlaceDescriptor::from/next/prev, the LineRow flag accessors, the "
+         "prologue walk of prolog_end_place (first prologue_end row at or after the function's first row) and the index arithmetic of "
+         "find_function_by_pc. Scope: pc->row and function->row answers over the parsed tables; line->rows (find_closest_place), DWARF "
+         "decoding and the comparison with an independent reader are not covered.",
+         "std binary_search_by_key / From conversions outlined with assumed contracts; `lines`/`fn_ranges` sorted is a precondition "
+         "(std sort in the parser); PlaceDescriptor.file lookup dropped; prolog_start_place (gimli) external.",
+         "Verus contracts on mechanically extracted real functions", "2/C04"),
+ "C05": ("proof",
+         "Kani/CBMC proofs, complete over all register values, of the register carriage used by the unwinder: the DWARF register "
+         "numbers equal the psABI table, DwarfRegisterMap::from(RegisterMap) stores every register under its DWARF number and nothing "
+         "else, update/update_from have the stated frame, and RelocatedAddress::offset computes CFA = register + offset exactly. "
+         "Scope: these units only; CFI row lookup, register-rule evaluation and the unwind loop (gimli) are not covered.",
+         "psABI Fig. 3.36 typed into the harness as oracle; gimli's CFI decoding unverified.",
+         "Kani proofs on the real crate, full-domain symbolic inputs", "2/C19+C05"),
+ "C06": ("proof",
+         "Kani/CBMC proofs over all 2^128 control groups that the hashbrown group scan marks exactly the FULL buckets and that the "
+         "bit iteration reports each set bit once, ascending; Verus proofs (unbounded) that guard_len/guard_cap clamp at 10 000 and "
+         "that the VecDeque ring split of parse_vec_dequeue_inner yields exactly len indices, the i-th being (head+i) mod capacity. "
+         "Scope: these decoders' arithmetic; type-graph driven parsing, bucket addresses, B-trees, strings and rendering are not covered.",
+         "hashbrown/VecDeque layout facts (EMPTY/DELETED top bit; to_physical_idx) are the oracle; R_init len <= cap and cap = real "
+         "capacity are recorded preconditions.",
+         "Kani full-domain proofs + Verus proof of an extracted statement fragment", "2/C06"),
+ "C07": ("proof",
+         "Verus proof (unbounded, all bounds and lengths) that the real ArrayValue::slice keeps exactly elements l..r-1 for in-range "
+         "bounds and the clamped intersection otherwise, and leaves a value without items untouched. Scope: the array slice operator "
+         "only; grammar/precedence, canonical text round trip, index/deref/address/cast are not covered.",
+         "Vec::drain outlined with std's documented panic condition as requires and its removal semantics as ensures; ArrayItem.value dropped.",
+         "Verus contract on the mechanically extracted real function", "2/C07"),
+ "C08": ("proof",
+         "Panic-freedom (overflow, index, unwrap, slice/drain bounds) of a fixed list of real functions on the property's mechanism "
+         "list, proved by Verus for all inputs with no precondition on user- or debuggee-controlled values except those recorded: "
+         "ArrayValue::slice, find_exact_place_by_pc/prev/next and the other line-table lookups, read_memory_by_pid, write_bytes, the "
+         "disassembly breakpoint mask, the VecDeque ring split, find_function_by_pc index arithmetic. Scope: only the listed "
+         "functions; the console/DAP loops, parsers, hangs and allocation failure are not covered.",
+         "overflow checked with debug-build (panic) semantics; outlined std calls carry std's documented panic condition as requires; "
+         "recorded preconditions: read_n <= isize::MAX, addr <= i64::MAX (DAP path), len <= cap for the deque ring.",
+         "Verus implicit obligations on mechanically extracted real functions", "2/C08"),
+ "C13": ("proof",
+         "Kani/CBMC proof over all (N, hits) pairs that the real HitCondition::matches is the arithmetic relation its variant names "
+         "(hitCondition N stops on the N-th hit and only then; an invalid condition never suppresses a stop). Scope: the hit-count "
+         "predicate only; replacement semantics, `verified`, conditions and logpoints are not covered.",
+         "everything else in C13 lives in handlers over serde_json, three HashMaps and the live debugger.",
+         "Kani full-domain proof of the real predicate", "2/C13"),
  "C14": ("proof",
          "Kani/CBMC proofs, complete over all 2^64-bit register images, of the real DR6/DR7 functions "
          "(dr_enabled, configure_bp, set_dr, detect_and_flush, BreakSize::try_from) against the Intel SDM layout, and of "
@@ -16,21 +71,35 @@ CLAIMS = {
          "HardwareDebugState::current/sync replaced by a static register image (stub); TraceeCtl thread map empty (std HashMap "
          "iteration is outside CBMC's reach) so the per-thread fan-out loop is unverified; Intel SDM semantics assumed.",
          "Kani function-level proofs on the real crate (stubs for ptrace), full-domain symbolic inputs", "2/C14"),
- "C04": ("proof",
-         "Verus proofs, for every sorted line table of any length, of the real BsUnit lookups extracted mechanically each run: "
-         "find_place_by_idx, find_place_by_pc (a row of the greatest address <= pc), find_exact_place_by_pc (lowest index with "
-         "that address, Some iff present), find_eb (nearest earlier epilogue row), PlaceDescriptor::from/next/prev and the LineRow "
-         "flag accessors. Scope: pc->row answers; line->rows (find_closest_place), function ranges and the comparison with an "
-         "independent DWARF reader are not covered.",
-         "std binary_search_by_key / saturating_sub / From conversions are outlined with assumed contracts; `lines` sorted by "
-         "address is a precondition (established by std sort in the parser); PlaceDescriptor.file lookup dropped.",
-         "Verus contracts on mechanically extracted real functions", "2/C04"),
- "C08": ("proof",
-         "Panic-freedom (overflow, index, unwrap, slice bounds) of a fixed list of functions on the property's mechanism list, "
-         "proved by Verus (unbounded) and Kani (complete) with no precondition on user- or debuggee-controlled values. "
-         "Scope: only the listed functions; not the console/DAP loops, parsers, hangs or allocation failure.",
-         "overflow checked with debug-build (panic) semantics; outlined std calls carry std's documented panic condition as requires.",
-         "Verus/Kani implicit obligations on real functions", "2/C08"),
+ "C15": ("proof",
+         "Verus proofs (unbounded: any address, length, alignment) that the real read_memory_by_pid returns exactly m[addr..addr+n] and "
+         "that the real write_bytes changes exactly [addr, addr+n) to the given bytes and nothing else, also on error; that the "
+         "disassembly mask shows the original byte for every breakpoint inside the function and touches nothing else; Kani proofs that "
+         "RegisterMap::update/value have the full 27-register frame and that the kernel-struct conversions are mutually inverse.",
+         "ptrace PEEK/POKE replaced by the ghost byte-map model; size_of/min/max/copy_from_slice/from_le_bytes outlined with std contracts; "
+         "filter+for_each composition of the mask is assumed.",
+         "Verus contracts on extracted real functions over a ghost memory model + Kani register proofs", "2/C15"),
+ "C16": ("proof",
+         "Kani/CBMC proofs that the real get_reg_for_no places argument n in the n-th SysV integer register and that "
+         "CallArgs::prepare_registers writes exactly the arguments, in order, leaving all other registers unchanged (any argument count "
+         "0..6, all values). Scope: argument placement; literal conversion, mmap/jump sequencing, exactly-once execution and state "
+         "restore through ptrace are not covered.",
+         "psABI 3.2.3 register order typed into the harness as oracle.",
+         "Kani proofs on the real crate, full-domain symbolic values", "2/C16"),
+ "C18": ("proof",
+         "Kani/CBMC proof over all values that GlobalAddress::relocate and RelocatedAddress::remove_vas_region_offset are mutually "
+         "inverse for every load offset; Verus proof that the real comparator of DwarfRegistry::find_range partitions any well-formed "
+         "range table, so the lookup returns a range containing the address iff one exists. Scope: address conversion and region "
+         "lookup; /proc/<pid>/maps, rendezvous, deferred breakpoints and dlopen histories are not covered.",
+         "std binary_search_by contract assumed for a partitioning comparator; wf_ranges (sorted, disjoint) assumed from the environment.",
+         "Kani full-domain proof + Verus proof on the extracted comparator", "2/C18"),
+ "C19": ("proof",
+         "Kani/CBMC proofs that the DWARF<->machine register numbering of the real tables equals the psABI table (injective, every "
+         "register retrievable under its number, nothing else present) and that GlobalAddress::in_range is the half-open range "
+         "predicate used by the lexical-scope filter. Scope: the register tables and the range predicate; finding the enclosing "
+         "block, shadowing, location lists and frame selection are not covered.",
+         "psABI Fig. 3.36 typed into the harness as oracle.",
+         "Kani proofs on the real crate, full-domain symbolic inputs", "2/C19+C05"),
 }
 
 NA = {
